@@ -233,10 +233,8 @@ def _job(job) -> List[Dict[str, Any]]:
 def closed_form_job(job) -> List[Dict[str, Any]]:
     """The same comparison under another rule id (used by other checks as the exact small-game counterpart of a structural rule)."""
     idx, tier, rule = job
-    out = _job((idx, tier))
-    for d in out:
-        d["rule"] = rule
-    return out
+    out = game._cached(_job, (idx, tier), Program().digest())
+    return [dict(d, rule=rule) for d in out]
 
 
 def run(prog: Program, rep: Report, tier: str = "quick") -> None:
@@ -252,7 +250,7 @@ def run(prog: Program, rep: Report, tier: str = "quick") -> None:
     rep.trust("abstract interpreter osv/ai in explicit mode (osv/rules/game.py); osv/poly.py normal form; v, w, vt, wt as uninterpreted functions")
     rep.not_decided = ["agreement to 1e-9 relative with a numeric evaluation (rounding; the asymptotic branches of the Gaussian corrections: C17)", "games of more than three (thorough: four) teams or more than two players per team",
                        "a user-supplied gamma callback (its placement: C07 R7.5, C16)", "limit_sigma (C06 R6.5)"]
-    for lst in parallel_map(_job, [(i, tier) for i in range(len(roles))]):
+    for lst in parallel_map(closed_form_job, [(i, tier, "R1.1") for i in range(len(roles))]):
         for d in lst:
             rep.add(Instance(d["rule"], d["verdict"], d["module"], d["function"], d["construct"], d["line"], d.get("message", ""), d.get("detail", {})))
     rep.floor("R1.1", 28 * len(roles))
